@@ -181,7 +181,7 @@ def _mk_get_info(n):
     return _gi
 
 
-for _n in (0, 1, 2, 3):
+for _n in (0, 1, 2, 3, 4, 5):          # 4, 5: thorough tier only
     _mk_get_info(_n)
 
 
